@@ -1,5 +1,6 @@
 import AdaVerif.Model.CanParse
 import AdaVerif.Gen.ParserExits
+import AdaVerif.Lemmas.FastSound
 /-
 C08 — can_parse answers exactly what parse would.
 
@@ -7,8 +8,15 @@ The size logic of `can_parse` is proved equal to "parse the base, then parse the
 both under the limit" for every combination of lengths and limit, *given*
   (Expand3)  a normalized href is at most three times as long as its input (plus base), and
   (FastSound) a definite answer of the fast scanner equals the validity of the input.
-Both hypotheses are explicit; FastSound and the validation-only parser's early exits are decided on
-the implementation for every generated (input, base, L) (checks/props/c08.py).
+FastSound is a theorem (`fast_scanner_sound`): `Model/FastScan.lean` transcribes `try_can_parse_absolute_fast`
+and the decimal IPv4 kernel it calls, statement by statement; for every input and every IDNA parameter a
+definite answer of that model is `(Spec.parse input none).isSome` (Lemmas/Fast*.lean: the trimming, the
+http(s) shortcut and the 7-byte scheme window, the merged authority/host scan with its `xn--`, forbidden-byte
+and IPv4 bookkeeping, the "last significant character" heuristic against the Standard's ends-in-a-number
+checker, the decimal IPv4 kernel against the Standard's IPv4 parser, the port validation against the port
+state).  The model is tied to the real scanner on every generated input (checks/props/c08.py, L1).
+Expand3 stays an explicit hypothesis (it depends on the IDNA step); it and the validation-only parser's early
+exits are decided on the implementation for every generated (input, base, L).
 -/
 namespace AdaVerif.Props.C08
 open AdaVerif AdaVerif.Model
@@ -101,6 +109,44 @@ theorem can_parse_size_logic (e : CanParseEnv) (f : ParseFacts) (L : Nat)
           · have h5 := hx hv; have h6 := hxb hvb'
             rw [dt (show f.baseHrefLen ≤ L by omega), dt (show f.hrefLen ≤ L by omega)]; rfl
         · rw [hfi, hfb]; simp [parseL]
+
+/-- **FastSound**: whenever the fast scanner (`try_can_parse_absolute_fast`) gives a definite answer, the answer is
+    whether the basic URL parser accepts the input with no base; for every input and every IDNA parameter -/
+theorem fast_scanner_sound (idna : Spec.Idna) (input : Bytes) (r : Bool)
+    (h : Model.FastScan.fastScan input = some r) : r = (Spec.parse idna input none).isSome :=
+  Lemmas.FS.fast_sound idna input r h
+
+/-- the scanner never answers `true` on an input the parser rejects, nor `false` on one it accepts -/
+theorem fast_scanner_no_false_answers (idna : Spec.Idna) (input : Bytes) :
+    (Model.FastScan.fastScan input = some true → (Spec.parse idna input none).isSome = true) ∧
+    (Model.FastScan.fastScan input = some false → Spec.parse idna input none = none) := by
+  constructor
+  · intro h; exact (fast_scanner_sound idna input true h).symm
+  · intro h
+    have := fast_scanner_sound idna input false h
+    cases hp : Spec.parse idna input none with
+    | none => rfl
+    | some u => rw [hp] at this; cases this
+
+/-- the decision table with the scanner and the Spec parser plugged in: FastSound is discharged -/
+theorem can_parse_size_logic_scanner (idna : Spec.Idna) (input : Bytes) (e : CanParseEnv) (f : ParseFacts) (L : Nat)
+    (hscan : e.hasBase = false → e.fast = Model.FastScan.fastScan input)
+    (hval : e.hasBase = false → f.validIn = (Spec.parse idna input none).isSome)
+    (hvi : e.validIn = f.validIn) (hvb : e.validBase = f.validBase)
+    (hfi : e.fullIn L = parseL e.inLen f.validIn f.hrefLen L)
+    (hfb : e.fullBase L = parseL e.baseLen f.validBase f.baseHrefLen L)
+    (hx : f.validIn = true → f.hrefLen ≤ 3 * (e.inLen + (if e.hasBase then e.baseLen else 0)))
+    (hxb : f.validBase = true → f.baseHrefLen ≤ 3 * e.baseLen) :
+    canParse e L = specCanParse e.hasBase e.inLen e.baseLen f L :=
+  can_parse_size_logic e f L hvi hvb hfi hfb
+    (fun r hb hf => by rw [hscan hb] at hf; rw [hval hb]; exact fast_scanner_sound idna input r hf) hx hxb
+
+/-- worked instances (kernel-evaluated): the scanner on some inputs of its own grammar -/
+example : Model.FastScan.fastScan (ofStr "  https://EXAMPLE.com:0000080/x y") = some true := by decide +kernel
+example : Model.FastScan.fastScan (ofStr "ws://1.2.3.4.:65536") = some false := by decide +kernel
+example : Model.FastScan.fastScan (ofStr "http://a.xn--b/") = none := by decide +kernel
+example : Model.FastScan.fastScan (ofStr "ftp://host.0x7f/") = none := by decide +kernel
+example : Model.FastScan.fastScan (ofStr "http://:80/") = some false := by decide +kernel
 
 /-- the validation-only instantiation leaves the parser only through exits that either mark the
     URL invalid or sit in states after which nothing can fail (PATH_START, PATH, OPAQUE_PATH):
